@@ -26,7 +26,7 @@ Proof.
   destruct (run E D apps st evs) as [[stf rec] num]. exact (proj2 H).
 Qed.
 
-From Lospan Require Import Model.Steps Proof.SchedDataProof.
+From Lospan Require Import Model.Steps Model.Join Proof.SchedDataProof Proof.SessionProof.
 (* Concurrent clause. ANY number of uplink handlers of one device working at the same time on ANY frames,
    interleaved operation by operation in EVERY order (storage / output-buffer operation granularity, the
    scheduler's per-device slot included) and cut after any number of operations, while the session has used
@@ -70,6 +70,18 @@ Proof. exact two_uplinks_counters. Qed.
 Theorem C07_raw_frame_carries_its_counter :
   forall E nk ak f buf, encode_message E nk ak f = Ok buf -> le_val (firstn 2 (skipn 6 buf)) = (fcnt f mod 65536)%N.
 Proof. exact encode_message_fcnt. Qed.
+(* ... and across a re-join: one join handler and ANY number of uplink handlers (with their encoders) of frames of the session the
+   device is leaving, interleaved in EVERY order and cut anywhere: whenever the row holds the new session key afterwards its
+   downlink counter is 0 - no encoder of the old session takes (or skips, or puts back) a counter of the new session. *)
+Theorem C07_old_session_encoders_do_not_take_new_counters :
+  forall (E D : list N -> list N -> list N) apps cfg jf jrx appnonce newaddr (ups : list (frame * rxpacket * nat * N)) sched fuel st r acc,
+    let knew := nwkskey_from_nonces E (d_appkey r) appnonce (cfg_netid cfg) (jr_devnonce (jr jf)) in
+    ds_row st = Some r -> d_nwkskey r <> knew ->
+    Forall (fun u => forall dev, d_nwkskey dev = knew -> mic_ok E (fst (fst (fst u))) (rx_raw (snd (fst (fst u)))) dev = false) ups ->
+    forall r', ds_row (fst (interleaveN apps sched fuel st
+        (join_prog E D cfg jf jrx appnonce newaddr :: map (fun u => uplink_prog E D (fst (fst (fst u))) (snd (fst (fst u))) (snd (fst u)) (snd u)) ups) acc)) = Some r' ->
+      d_nwkskey r' = knew -> d_fdn r' = 0%N.
+Proof. exact stragglers_leave_the_new_downlink_counter_alone. Qed.
 
 
 Print Assumptions C07_step.
@@ -78,3 +90,4 @@ Print Assumptions C07_concurrent_counters_unique.
 Print Assumptions C07_two_handlers_counters_unique.
 Print Assumptions C07_raw_frame_carries_its_counter.
 Print Assumptions C07_histories_of_concurrent_uplinks.
+Print Assumptions C07_old_session_encoders_do_not_take_new_counters.
